@@ -252,6 +252,19 @@ def oracle(sc, ctx, program):
         tag = "+".join(m[0] for m in hist) or "built"
         for sig, msg in check_hugr(h, tag, few_configs=bool(hist)):
             out.append((sig, f"{msg} | history={hist} | program={program}"))
+    # the other origin: the loaded copy (as read, and after one mutation of each kind) is drawn
+    try:
+        l0 = mutate.load_copy(factory())
+    except Exception:  # noqa: BLE001 - C02's business
+        l0 = None
+    if l0 is not None:
+        for sig, msg in check_hugr(l0, "loaded", few_configs=True):
+            out.append((sig, f"{msg} | history=[['loaded']] | program={program}"))
+        for hist, l in mutate.loaded_histories(factory, "quick", kinds=_KINDS, pre=lambda g: mutate.observe(g, render=True)):
+            if l is None:
+                continue
+            for sig, msg in check_hugr(l, "loaded+" + hist[1][0], few_configs=True):
+                out.append((sig, f"{msg} | history={hist} | program={program}"))
     return out
 
 
